@@ -10,6 +10,65 @@ theorem inv_lazy_irrel {cfg : Cfg} {s : State} (h : Inv cfg s) (rs : List (ResId
     Inv cfg { s with results := rs, iters := is } :=
   ⟨h.confs, h.pals, h.live, h.cache, h.nc, h.subs, h.enums, h.cur, h.subcur, h.glob, h.gp⟩
 
+theorem inv_synced_irrel {cfg : Cfg} {s : State} (h : Inv cfg s) (sy : List (ClassId × List Color)) :
+    Inv cfg { s with synced := sy } :=
+  ⟨h.confs, h.pals, h.live, h.cache, h.nc, h.subs, h.enums, h.cur, h.subcur, h.glob, h.gp⟩
+
+theorem setConf_keeps (cfg : Cfg) (s : State) (k : ConfId) (old new : Conf) :
+    (setConf cfg s k old new).heap = s.heap ∧ (setConf cfg s k old new).results = s.results ∧
+    (setConf cfg s k old new).iters = s.iters := by
+  unfold setConf syncGp putConf
+  simp only []
+  split
+  · split <;> simp
+  · simp
+
+theorem regSynced_keeps (cfg : Cfg) (k : ConfId) : ∀ (cs : List ClassId) (s : State),
+    (regSynced cfg k cs s).heap = s.heap ∧ (regSynced cfg k cs s).results = s.results ∧
+    (regSynced cfg k cs s).iters = s.iters := by
+  intro cs
+  induction cs with
+  | nil => intro s; exact ⟨rfl, rfl, rfl⟩
+  | cons cls rest ih =>
+    intro s
+    simp only [regSynced]
+    split
+    · exact ⟨rfl, rfl, rfl⟩
+    · rename_i c _
+      split
+      · rename_i c' _
+        obtain ⟨a1, a2, a3⟩ := ih (setConf cfg s k c c')
+        obtain ⟨b1, b2, b3⟩ := setConf_keeps cfg s k c c'
+        exact ⟨a1.trans b1, a2.trans b2, a3.trans b3⟩
+      · exact ih s
+
+theorem mkSynced_inv {cfg : Cfg} (hcfg : cfgOk cfg = true) {cls : ClassId} {s s' : State} (hinv : Inv cfg s)
+    (h : mkSynced cfg cls s = .ok s') :
+    Inv cfg s' ∧ s'.heap = s.heap ∧ s'.results = s.results ∧ s'.iters = s.iters := by
+  unfold mkSynced at h
+  simp only [bind, Except.bind, getClass, getConf] at h
+  cases hci : cfg.classes[cls]? with
+  | none => simp [hci] at h
+  | some ci =>
+  simp only [hci] at h
+  split at h
+  · cases h
+  · split at h
+    · cases h; exact ⟨hinv, rfl, rfl, rfl⟩
+    · cases hk : s.confs.lookup s.global with
+      | none => simp [hk] at h
+      | some c =>
+        simp only [hk] at h
+        cases hr : registerCls cfg cls c with
+        | error e => simp [hr] at h
+        | ok c' =>
+          simp only [hr] at h
+          cases h
+          obtain ⟨hc', hstep⟩ := registerCls_ok hcfg (hinv.confs _ c hk) hr
+          have h1 := inv_setConf hcfg hinv hk hc' hstep
+          obtain ⟨b1, b2, b3⟩ := setConf_keeps cfg s s.global c c'
+          exact ⟨inv_synced_irrel h1 _, b1, b2, b3⟩
+
 theorem frame_lazy (s : State) (rs : List (ResId × Res)) (is : List (IterId × Iter)) :
     Frame s { s with results := rs, iters := is } :=
   ⟨fun _ _ h => h, fun _ c h => ⟨c, h, rfl, rfl, Nat.le_refl _, fun _ => ⟨rfl, fun _ _ hh => hh⟩⟩,
@@ -612,10 +671,14 @@ theorem step_resOk {cfg : Cfg} (hcfg : cfgOk cfg = true) {alloc : Alloc} (hal : 
       | ok c =>
         simp only [hg] at h
         cases h
+        obtain ⟨a1, a2, a3⟩ := regSynced_keeps cfg k (s.synced.map (·.1)) s
+        have hm : ∀ a q, s.heap.lookup a = some q →
+            (regSynced cfg k (s.synced.map (·.1)) s).heap.lookup a = some q := by
+          intro a q hq; rw [a1]; exact hq
         unfold syncGp
         split
-        · exact resOk_same ho idm rfl rfl
-        · exact resOk_same ho idm rfl rfl
+        · exact resOk_same ho hm a2 a3
+        · exact resOk_same ho hm a2 a3
     · exact ho
   | newEnum e =>
     simp only [step]
@@ -781,6 +844,13 @@ theorem step_resOk {cfg : Cfg} (hcfg : cfgOk cfg = true) {alloc : Alloc} (hal : 
       have hl := mkPalette_lazy h
       exact resOk_same ho hfr.heap hl.1 hl.2
     · exact ho
+  | mkSynced cls =>
+    simp only [step]
+    split
+    · rename_i s' h
+      obtain ⟨_, b1, b2, b3⟩ := mkSynced_inv hcfg hinv h
+      exact resOk_same ho (fun a q hq => by rw [b1]; exact hq) b2 b3
+    · exact ho
 
 /-! ### histories -/
 
@@ -797,7 +867,7 @@ theorem step_inv {cfg : Cfg} (hcfg : cfgOk cfg = true) (hko : cfg.keyByObj = tru
   | setGlobal k =>
     simp only [step]
     split
-    · rename_i s' h; exact setGlobal_inv hinv h
+    · rename_i s' h; exact setGlobal_inv hcfg hinv h
     · exact hinv
   | newEnum e =>
     simp only [step]
@@ -834,6 +904,11 @@ theorem step_inv {cfg : Cfg} (hcfg : cfgOk cfg = true) (hko : cfg.keyByObj = tru
     simp only [step]
     split
     · rename_i s' a h; exact (mkPalette_spec hcfg hal hinv h).1
+    · exact hinv
+  | mkSynced cls =>
+    simp only [step]
+    split
+    · rename_i s' h; exact (mkSynced_inv hcfg hinv h).1
     · exact hinv
 
 theorem run_inv {cfg : Cfg} (hcfg : cfgOk cfg = true) (hko : cfg.keyByObj = true) {alloc : Alloc}
